@@ -13,7 +13,7 @@ FENCES = {
  "exact-user-key-returns-one-per-scope": "C13: exact patterns on user keys skipped",
  "hquery-ignores-pattern-for-element-roots": "C13: hierarchical pattern relations only for netlist / instance-HRef roots with selection INSIDE",
  "long-bus-net-bit-identifier-too-long": "C17: multi-bit nets get names <= 240 characters",
- "bus-net-ampersand-underscore-not-reassembled": "C17: multi-bit net names start with a letter or digit",
+ "bus-net-backslash-name-not-reassembled": "C17: multi-bit net names do not start with a backslash",
  "positional-map-before-declaration": "C06/C04: positional maps only when modules are written in declaration-before-use order",
  "flattened-names-written-unescaped": "C04: no flatten before compose",
 }
